@@ -809,9 +809,18 @@ def rule_tx_refuse_pure(ctx, R):
                 P = prov.operand_origins(b, t["a"][0])
                 if any(TS in f_ or f_.endswith("Connection.transaction_state") for f_ in P.fields) and "&mut" in b.locals[op_place(t["a"][0])["l"]]:
                     muts.append(i)
+        # path-sensitive: `if state.begin() { ok } else { error }` -- the writes happen on the path
+        # that yields `true`, the error is built where the flag is false
+        import boolpath
+        reach_from = {}
+        for m in set(muts):
+            try:
+                reach_from[m] = set(boolpath.explore(b, boolpath.Spec(), starts=[m]).reached)
+            except boolpath.TooManyStates:
+                reach_from[m] = cfg.fwd(b, [m])
         for k, e in enumerate(errs):
             n += 1
-            before = [m for m in muts if e in cfg.fwd(b, [m]) and m != e]
+            before = [m for m in muts if e in reach_from.get(m, ()) and m != e]
             R.inst(fn, "refusal#%d" % k, {"function": fn.split("::")[-1], "at": b.loc(e), "state_writes_that_can_precede_it": len(before)})
             if before:
                 R.finding(fn, "refusal-after-state-write",
